@@ -16,7 +16,10 @@ import numpy as np
 
 from . import kernel
 
-TOL = 1e-3          # absolute tolerance on logits (observed agreement ~1e-5)
+TOL = 1e-3          # absolute tolerance on logits (typical agreement ~1e-5)
+REL = 1.5e-4        # ... or this fraction of the largest score magnitude of the batch, whichever is larger:
+                    # float32 noise grows with the scale of the scores (1e-3 was exceeded by pure rounding
+                    # noise, 1.0e-3..1.9e-3, on 3 of 24 000 plans with |scores| of 21..30)
 TIE = 4e-3          # an arg-max margin below this may legitimately flip a symbol
 
 
@@ -175,7 +178,8 @@ def gen_plan(seed, tier, index):
     dim = max(8, min(32, dim))
     m = {'seed': r.randrange(1 << 20), 'dim': dim, 'heads': heads, 'ff': r.choice([16, 32]),
          'enc_layers': 1, 'dec_layers': r.choice([1, 2, 2, 3]), 'nsym': r.choice([3, 5, 8]), 'H': 8,
-         'gain': r.choice([1.0, 1.5, 2.0]), 'eos_q': r.choice([0.6, 0.8, 0.9, 0.95, 0.98])}
+         'gain': r.choice([1.0, 1.5, 2.0]) if dim > 8 else r.choice([1.0, 1.5]),
+         'eos_q': r.choice([0.6, 0.8, 0.9, 0.95, 0.98])}
     nb = r.randint(2, 8)
     batches = []
     prev = None
@@ -247,12 +251,25 @@ def _viol(res, kind, sig, msg, k):
     res.violations.append(kernel.Violation('C20', kind, sig, 'batch %d: %s' % (k, msg), {'batch': k}))
 
 
-def _maxdiff(a, b):
+_WORST = [0.0]      # largest (difference / tolerance) seen in the current run, reported in the evidence
+
+
+def tol_for(logits):
+    torch = _torch()
+    fin = logits[torch.isfinite(logits)]
+    scale = float(fin.abs().max()) if fin.numel() else 0.0
+    return max(TOL, REL * scale)
+
+
+def _maxdiff(a, b, tol=None):
     torch = _torch()
     if a.shape != b.shape:
         return float('inf')
     d = (a - b).abs().max()
-    return float('inf') if not bool(torch.isfinite(d)) else float(d)
+    d = float('inf') if not bool(torch.isfinite(d)) else float(d)
+    if tol is not None and d != float('inf'):
+        _WORST[0] = max(_WORST[0], d / tol)
+    return d
 
 
 def check_batch(res, ctx, k, b, x, outs, logits):
@@ -276,9 +293,14 @@ def check_batch(res, ctx, k, b, x, outs, logits):
         res.probe('line_hit_length_cap')
     if any(e == 0 for e in ends):
         res.probe('line_finished_immediately')
-    near_tie = min_margin(logits) < TIE
-    if near_tie:
-        res.probe('near_tie_waiver')
+    # symbol-level comparisons are waived per line: a line whose arg-max margin is below TIE at some step
+    # may legitimately flip a symbol under float noise (lines are independent, so only that line is waived)
+    top2 = logits.topk(2, dim=-1).values
+    line_margin = (top2[..., 0] - top2[..., 1]).min(dim=1).values
+    tie = [bool(line_margin[n] < TIE) for n in range(logits.shape[0])]
+    if any(tie):
+        res.probe('near_tie_waiver', sum(tie))
+    tol = tol_for(logits)
     # --- outputs free of boundary / ignore symbols, consistent with the scores
     samples = logits.argmax(dim=-1)
     for n, o in enumerate(outs):
@@ -289,7 +311,7 @@ def check_batch(res, ctx, k, b, x, outs, logits):
         # the sample of the last step is never appended when the loop stops on the cap
         avail = steps - 1 if ends[n] is None else ends[n]
         want = [int(s) for s in samples[n, :avail] if int(s) != ign]
-        if ol != want and not near_tie:
+        if ol != want and not tie[n]:
             _viol(res, 'output', 'transcription-not-argmax-prefix', 'line %d output %s but arg-max prefix %s' % (n, ol, want), k)
             return False
         text = sut('decode', live.decode, [o])[0]
@@ -306,8 +328,8 @@ def check_batch(res, ctx, k, b, x, outs, logits):
     for t in range(steps):
         out = fresh.dec_out_proj(sut('Decoder.infer(uncached)', fresh.trans_decoder.infer,
                                      fresh.pos_encoder(embs[:t + 1]), enc, is_cached=False))
-        worst = max(worst, _maxdiff(out, logits[:, t]))
-    if worst > TOL:
+        worst = max(worst, _maxdiff(out, logits[:, t], tol))
+    if worst > tol:
         _viol(res, 'cache', 'cached-vs-uncached-scores', 'cached=%s scores differ from uncached recomputation by %.3g' % (b['cached'], worst), k)
         return False
     # --- oracle 1b: cached stepping on a fresh deep copy (empty caches), fed the emitted symbols
@@ -316,29 +338,31 @@ def check_batch(res, ctx, k, b, x, outs, logits):
     for t in range(steps):
         out = fresh.dec_out_proj(sut('Decoder.infer(cached)', fresh.trans_decoder.infer,
                                      fresh.pos_encoder(embs[:t + 1]), enc, is_cached=True))
-        worst = max(worst, _maxdiff(out, logits[:, t]))
-    if worst > TOL:
+        worst = max(worst, _maxdiff(out, logits[:, t], tol))
+    if worst > tol:
         _viol(res, 'cache', 'history-vs-fresh-cached-scores', 'scores differ from cached decoding on a fresh model by %.3g' % worst, k)
         return False
     # --- oracle 2: teacher-forced masked forward over the emitted symbols
     tf = sut('forward', copy.deepcopy(pristine).forward, xt, fed.permute(1, 0)).permute(1, 0, 2)
-    d = _maxdiff(tf, logits)
-    if d > TOL:
+    d = _maxdiff(tf, logits, tol)
+    if d > tol:
         _viol(res, 'cache', 'stepwise-vs-teacher-forced-scores', 'step-by-step scores differ from the masked forward pass by %.3g' % d, k)
         return False
     # --- oracle 3: whole uncached transcribe_batch on a fresh copy gives the same transcriptions
-    if not near_tie:
+    if not all(tie):
         eng_u = make_engine(copy.deepcopy(pristine), m['nsym'])
         eng_u.net.dec_out_proj.cap = cap_steps + 3
         outs_u, logits_u = sut('transcribe_batch(uncached)', eng_u.transcribe_batch, x, is_cached=False)
-        if [o.tolist() for o in outs_u] != [o.tolist() for o in outs]:
+        if [o.tolist() for n, o in enumerate(outs_u) if not tie[n]] != [o.tolist() for n, o in enumerate(outs) if not tie[n]]:
             _viol(res, 'cache', 'cached-vs-uncached-transcription', 'transcriptions differ: %s vs %s' % ([o.tolist() for o in outs], [o.tolist() for o in outs_u]), k)
             return False
     # --- oracle 4: every line alone (fresh copy, cached) = the line inside its batch
-    if not near_tie and b['n'] > 1:
+    if b['n'] > 1:
         if b.get('huge'):
             res.probe('huge_batch_checked')
         for n in (range(b['n']) if not b.get('huge') else range(0, b['n'], 16)):
+            if tie[n]:
+                continue
             eng_1 = make_engine(copy.deepcopy(pristine), m['nsym'])
             eng_1.net.dec_out_proj.cap = cap_steps + 3
             o1, l1 = sut('transcribe_batch(line alone)', eng_1.transcribe_batch, x[n:n + 1], is_cached=True)
@@ -347,16 +371,16 @@ def check_batch(res, ctx, k, b, x, outs, logits):
             if s1 != exp_steps or s1 > steps:
                 _viol(res, 'batch-independence', 'line-alone-length', 'line %d alone ran %d steps, in batch it ended after %d' % (n, s1, exp_steps), k)
                 return False
-            d = _maxdiff(l1[0], logits[n, :s1])
-            if d > TOL:
+            d = _maxdiff(l1[0], logits[n, :s1], tol)
+            if d > tol:
                 _viol(res, 'batch-independence', 'line-alone-scores', 'line %d alone differs from in-batch scores by %.3g' % (n, d), k)
                 return False
             if o1[0].tolist() != outs[n].tolist():
                 _viol(res, 'batch-independence', 'line-alone-transcription', 'line %d alone %s, in batch %s' % (n, o1[0].tolist(), outs[n].tolist()), k)
                 return False
         res.probe('lines_checked_alone', b['n'])
-    if b.get('dup') and b['n'] >= 2 and not near_tie:
-        if outs[0].tolist() != outs[1].tolist() or _maxdiff(logits[0], logits[1]) > TOL:
+    if b.get('dup') and b['n'] >= 2 and not (tie[0] or tie[1]):
+        if outs[0].tolist() != outs[1].tolist() or _maxdiff(logits[0], logits[1], tol) > tol:
             _viol(res, 'batch-independence', 'identical-lines-differ', 'two identical lines of one batch got different results', k)
             return False
         res.probe('identical_lines_in_batch')
@@ -390,9 +414,10 @@ def forced_prefix_batch(res, ctx, k, b, x, proj, log):
     if not bool(torch.isfinite(got).all()):
         _viol(res, 'cache', 'non-finite-scores|%s' % ctx['plan']['poison'], 'scores of a forced prefix contain NaN/inf', k)
         return False
+    tol = tol_for(got)
     tf = sut('forward', copy.deepcopy(pristine).forward, xt, fed.permute(1, 0)).permute(1, 0, 2)
-    d = _maxdiff(tf, got)
-    if d > TOL:
+    d = _maxdiff(tf, got, tol)
+    if d > tol:
         _viol(res, 'cache', 'stepwise-vs-teacher-forced-scores', 'forced prefix: step-by-step scores differ from the masked forward pass by %.3g' % d, k)
         return False
     fresh = copy.deepcopy(pristine)
@@ -401,8 +426,8 @@ def forced_prefix_batch(res, ctx, k, b, x, proj, log):
     worst = 0.0
     for t in range(length):
         out = fresh.dec_out_proj(sut('Decoder.infer(uncached)', fresh.trans_decoder.infer, fresh.pos_encoder(embs2[:t + 1]), enc2, is_cached=False))
-        worst = max(worst, _maxdiff(out, got[:, t]))
-    if worst > TOL:
+        worst = max(worst, _maxdiff(out, got[:, t], tol))
+    if worst > tol:
         _viol(res, 'cache', 'cached-vs-uncached-scores', 'forced prefix: scores differ from uncached recomputation by %.3g' % worst, k)
         return False
     return True
@@ -439,9 +464,10 @@ def run_ocr_batch(res, ctx, k, b, x, proj, log):
     res.probe('run_ocr_batches')
     if w < 1088:
         res.probe('run_ocr_centre_padded')
-    d = _maxdiff(logits, ref_logits)
+    tol = tol_for(ref_logits)
+    d = _maxdiff(logits, ref_logits, tol)
     near_tie = min_margin(ref_logits) < TIE
-    if d > TOL and not (near_tie and logits.shape != ref_logits.shape):
+    if d > tol and not (near_tie and logits.shape != ref_logits.shape):
         _viol(res, 'cache', 'run_ocr-vs-fresh-scores', 'run_ocr scores differ from a fresh model on the padded input by %.3g' % d, k)
         return False
     want = ref.decode(ref_outs)
@@ -458,8 +484,8 @@ def run_ocr_batch(res, ctx, k, b, x, proj, log):
     fed = torch.cat([torch.full((1, b['n']), eos, dtype=torch.long), samples.permute(1, 0)[:steps - 1]], dim=0)
     xt = torch.from_numpy(padded).float() / 255.0
     tf = sut('forward', copy.deepcopy(pristine).forward, xt, fed.permute(1, 0)).permute(1, 0, 2)
-    d = _maxdiff(tf, logits)
-    if d > TOL:
+    d = _maxdiff(tf, logits, tol)
+    if d > tol:
         _viol(res, 'cache', 'stepwise-vs-teacher-forced-scores', 'run_ocr scores differ from the masked forward pass by %.3g' % d, k)
         return False
     return True
@@ -472,6 +498,7 @@ def execute(plan):
     log = kernel.EventLog()
     m = plan['model']
     stats = {}
+    _WORST[0] = 0.0
     real_torch = transformer.torch._real if isinstance(transformer.torch, TorchProxy) else transformer.torch
     try:
         with quiet(), torch.no_grad():
@@ -559,6 +586,7 @@ def execute(plan):
     finally:
         transformer.torch = real_torch
     res.faults['allocations_poisoned_' + plan['poison']] = stats.get('allocations_poisoned', 0)
+    res.info['max_diff_over_tol'] = round(_WORST[0], 4)
     res.digest = log.digest()
     res.sim_processes = 1
     res.excerpt = log.excerpt(20)
